@@ -497,6 +497,8 @@ def trace_vhdx_chain(tid, rng, nops, align=None):
                         present = list(range(lo, hi))
                     else:
                         present = [x for x in range(win) if (x // rng.choice([1, 3, 8])) % 2 == 0]
+                    if rng.random() < 0.6:   # some sectors at the very end of the block as well
+                        present += [x for x in range(spb - 24, spb) if rng.random() < 0.5]
                     for x in present:
                         g = b * spb + x
                         allbits[g // 8] |= 1 << (g % 8)
@@ -523,7 +525,15 @@ def trace_vhdx_chain(tid, rng, nops, align=None):
             s = rec.s
             b = rng.randrange(nb)
             r = rng.random()
-            if r < 0.6:
+            if r < 0.15 and b + 1 < nb:
+                # a request that leaves one block through its last sectors and enters the next one
+                s0 = spb - rng.randrange(1, 20)
+                c = rng.randrange(spb - s0 + 1, spb - s0 + 30)
+                if rng.random() < 0.5:
+                    rec.sectors(s.read_sectors, b * spb + s0, c, sector)
+                else:
+                    rec.readoffset((b * spb + s0) * sector, c * sector)
+            elif r < 0.6:
                 s0 = rng.randrange(0, win + 4)
                 c = rng.randrange(1, 24)
                 if b * spb + s0 + c <= nb * spb:
@@ -603,21 +613,77 @@ def trace_qcow2_chain(tid, rng, nops, align=None):
             "events": events}
 
 
+def trace_qcow2_chain_std(tid, rng, nops, align=None):
+    """Backing chains of standard-L2 images with small clusters: several L1 entries, some of them empty (no L2 table)."""
+    from dissect.hypervisor.disk.qcow2 import QCow2
+
+    cb = rng.choice([9, 9, 10])
+    cs = 1 << cb
+    l2n = cs // 8
+    depth = rng.randrange(2, 4)
+    nc0 = rng.randrange(l2n + 3, 4 * l2n)
+    ncs = [nc0] + [max(1, nc0 + rng.choice([0, 0, -1, -l2n // 2, 3])) for _ in range(depth - 1)]
+    vfs, layers, bases = [], [], []
+    for i in range(depth):
+        is_base = i == depth - 1
+        nc = ncs[i]
+        nl1 = -(-nc // l2n)
+        l1 = {x: rng.random() < 0.6 for x in range(nl1)}
+        back_cells = -1 if is_base else ncs[i + 1]
+        pos = list(range(1, nc + 2))
+        rng.shuffle(pos)
+        t, h, l2 = [], [], {}
+        for c in range(nc):
+            k = rng.choice(["U", "U", "N", "N", "ZP", "ZA"]) if l1[c // l2n] else "U"
+            hh = pos.pop() if k in ("N", "ZA") else 0
+            t.append(k)
+            h.append(hh)
+            l2[c] = {"t": k, "h": hh, "sub": []}
+        img = {"ext": False, "datafile": False, "l2n": l2n, "s": 1, "l1": l1, "l2": l2, "back": back_cells, "size": nc}
+        vf, _, info = enc_qcow2.build(img, cluster_bits=cb, K=1, file_id=i)
+        vfs.append(vf)
+        bases.append(info["data_base"])
+        layers.append({"fmt": "qcow2", "img": {"ext": False, "datafile": False, "nc": nc, "s": 1, "t": t, "h": h, "al_lo": [0] * nc, "al_hi": [0] * nc,
+                                               "ze_lo": [0] * nc, "ze_hi": [0] * nc, "back": back_cells}})
+
+    def opener():
+        obj = None
+        for vf in reversed(vfs):
+            vf.seek(0)
+            obj = QCow2(vf, backing_file=obj)
+        return obj
+
+    size_b = ncs[0] * cs
+    s, fresh = opener(), opener()
+    events, recs = session(s, fresh, size_b, align, "backing_file", depth, sizes=[n_ * cs for n_ in ncs])
+    interleaved_ops(recs, rng, size_b, nops, unit=l2n * cs, big=min(3 * l2n * cs, 1 << 20))
+    geo = {"cellB": cs, "cb": 1, "stride": cs, "bases": bases, "pbase": 0}
+    return {"tid": tid, "fmt": "chain", "kind": "qcow2-std", "chain": layers, "sizeB": size_b, "sizes": [n_ * cs for n_ in ncs], "sector": 512, "geo": geo,
+            "events": events}
+
+
 def trace_vdi_chain(tid, rng, nops, align=None):
     from dissect.hypervisor.disk.vdi import VDI
 
     bs = rng.choice([4096, 65536, 1 << 20])
     n = rng.randrange(2, 12)
     depth = rng.randrange(2, 5)
+    # the layers of a chain need not share a block size: layer i uses cbs[i] cells (of bs bytes) per block
+    mixed = rng.random() < 0.4
+    if mixed:
+        bs = rng.choice([4096, 65536])
+        n = 4 * rng.randrange(1, 5)
     vfs, layers, bases = [], [], []
     for i in range(depth):
-        pos = _perm(rng, n + 1)
-        mp = [(-1 if rng.random() < 0.45 else -2 if rng.random() < 0.2 else pos.pop()) for _ in range(n)]
-        vf, cell, doff, _ = enc_vdi.build({"n": n, "cb": 1, "map": {c: mp[c] for c in range(n)}, "size": n, "parent": i < depth - 1},
-                                          block_size=bs, file_id=i, P=n + 1)
+        cbi = rng.choice([1, 2, 4]) if mixed else 1
+        ni = n // cbi
+        pos = _perm(rng, ni + 1)
+        mp = [(-1 if rng.random() < 0.45 else -2 if rng.random() < 0.2 else pos.pop()) for _ in range(ni)]
+        vf, cell, doff, _ = enc_vdi.build({"n": ni, "cb": 1, "map": {c: mp[c] for c in range(ni)}, "size": ni, "parent": i < depth - 1},
+                                          block_size=bs * cbi, file_id=i, P=ni + 1)
         vfs.append(vf)
         bases.append(doff)
-        layers.append({"fmt": "vdi", "img": {"n": n, "map": mp, "parent": i < depth - 1}})
+        layers.append({"fmt": "vdi", "img": {"n": ni, "cb": cbi, "map": mp, "parent": i < depth - 1}})
 
     def opener():
         obj = None
@@ -635,12 +701,12 @@ def trace_vdi_chain(tid, rng, nops, align=None):
 
 
 def direction_B(ctx, thorough):
-    makers = [trace_vhdx_chain, trace_vhdx_chain, trace_qcow2_chain, trace_vdi_chain]
+    makers = [trace_vhdx_chain, trace_vhdx_chain, trace_qcow2_chain, trace_vdi_chain, trace_qcow2_chain_std]
 
     def mk(tid, rng):
         return makers[tid % len(makers)](tid, rng, 60 if thorough else 30)
 
-    diskprop.traces(ctx, "chain", mk, 240 if thorough else 48, "TraceDisk", "TraceDisk.cfg",
+    diskprop.traces(ctx, "chain", mk, 240 if thorough else 60, "TraceDisk", "TraceDisk.cfg",
                     lambda t: {"format": "chain", "kind": t["kind"], "depth": len(t["chain"]), "mode": "B"}, label="random chains")
 
 
